@@ -396,7 +396,14 @@ class tree:
         pkg_exact = set()
 
         for e, s in ((pkg_exact, pkg_restrict), (cat_exact, cat_restrict)):
-            l = [x for x in s if isinstance(x, values.StrExactMatch) and not x.negate]
+            # a case insensitive match is no literal key: it stays a filter
+            l = [
+                x
+                for x in s
+                if isinstance(x, values.StrExactMatch)
+                and not x.negate
+                and x.case_sensitive
+            ]
             s.difference_update(l)
             e.update(x.exact for x in l)
         del l
